@@ -1417,7 +1417,10 @@ class PathResult:
         self.unexplored = getattr(c, 'unexplored', 0)
 
 
-def explore(fn, max_paths=2000, time_budget=None, ctx_hook=None, want_nice=True):
+STOP_AFTER_COUNTEREXAMPLES = 24
+
+
+def explore(fn, max_paths=2000, time_budget=None, ctx_hook=None, want_nice=True, counts_as_new=None):
     """Depth-first re-execution of fn(ctx) over decision prefixes.
 
     Returns (list of PathResult, complete: bool).  `complete` is False when
@@ -1427,6 +1430,7 @@ def explore(fn, max_paths=2000, time_budget=None, ctx_hook=None, want_nice=True)
     results = []
     t0 = time.time()
     complete = True
+    n_sat = 0
     while stack:
         if len(results) >= max_paths or (time_budget and time.time() - t0 > time_budget):
             complete = False
@@ -1454,6 +1458,11 @@ def explore(fn, max_paths=2000, time_budget=None, ctx_hook=None, want_nice=True)
             except z3.Z3Exception:
                 pr.nice = None
         results.append(pr)
+        n_sat += sum(1 for ob in pr.obligations if ob.get('verdict') == 'sat' and (counts_as_new is None or counts_as_new(ob)))
+        if n_sat >= STOP_AFTER_COUNTEREXAMPLES and stack:
+            # enough counterexamples to report: the rest of this configuration is not explored (reported as incomplete)
+            complete = False
+            break
     return results, complete
 
 
